@@ -161,6 +161,16 @@ def _impl(tier, seed, search):
                 if ok2:
                     L.check('isparallel(long)', bool(c[0]) and bool(c[1]), linp, 'parallel lines with long direction vectors are not reported parallel', sig='isparallel:long')
                     L.close('distance-parallel(long)', [float(c[2]), float(c[3])], [float(np.linalg.norm(offL))] * 2, TOL, max(sc, 10.0), linp, what='distance between parallel lines with long direction vectors is not their separation', sig='isparallel:long')
+        # fixed far-away lines (coordinates 30 .. 1000, every Pluecker coordinate large) and parallel copies shifted sideways by 1e-6 .. 1e-5 of
+        # the data magnitude: different lines (a relative tolerance of 1e-5 on the coordinates would call them equal)
+        if i < 6:
+            scf = (30.0, 300.0, 1000.0)[i % 3]; Pf = np.array([1.0, 2.5, -3.0]) * scf; df = np.array([2.0, -1.0, 2.0]) / 3.0 * (1.0 if i < 3 else 7.0); shd = np.cross(df, [0.0, 0.0, 1.0]); shd = shd / np.linalg.norm(shd)
+            for rel_ in (1e-6, 3e-6, 1e-5):
+                shf = shd * scf * rel_; lf = Plucker.PQ(Pf, Pf + df * 5); finp = dict(P=Pf, dir=df, shift=shf)
+                ok2, c = L.noraise('==(far line, shifted)', lambda: (lf == Plucker.PQ(Pf + shf, Pf + shf + df * 5), lf != Plucker.PQ(Pf + shf, Pf + shf + df * 5), lf == Plucker.PointDir(Pf + shf, df * 2), lf == Plucker.PQ(Pf + df, Pf + df * 3)), finp, 'Plucker == on far-away lines')
+                if ok2:
+                    L.check('==:shifted-copy(far)', (not bool(c[0])) and bool(c[1]) and not bool(c[2]), finp, f'a line {scf:g} from the origin and a parallel copy shifted sideways by {rel_:g} of that distance compare equal', sig='==:shifted')
+                    L.check('==:same-line(far)', bool(c[3]), finp, 'the same far-away line built from other points / a rescaled direction does not compare equal', sig='==:shifted')
         # a parallel copy shifted sideways by 1e-4 .. 1e-2 of the data magnitude is a different line
         sh_ = np.cross(d / np.linalg.norm(d), inputs.unit_axis(g))
         if np.linalg.norm(sh_) > 0.3:
